@@ -121,6 +121,7 @@ def walks(graph, rng, nwalks, maxlen):
         seqs.append((mi, ["run"]))
         seqs.append((mi, ["done", "update"] * (mi + 2) + ["done"]))
         seqs.append((mi, ["update"] * (mi + 2) + ["done", "run"]))
+        seqs.append((mi, ["run", "run"]))        # run() twice: the second one must not update and returns the same solution
     return seqs
 
 
